@@ -18,29 +18,33 @@ Definition slot_nil (all : list param) (kws : list pname) (p : param) : slot :=
 
 Lemma bind_go_nil : forall all kws ps b, bind_go all ps [] kws = Ok b ->
   b = map (fun p => (p_name p, slot_nil all kws p)) ps /\
-  forall p, In p ps -> takes_kw p = true -> mem (p_name p) kws = false -> p_default p <> None.
+  forall p, In p ps -> is_star p = false -> (takes_kw p = true -> mem (p_name p) kws = false) -> p_default p <> None.
 Proof.
   intros all kws. induction ps as [|p ps IH]; intros b H.
   - simpl in H. inversion H; subst. split; [reflexivity|]. intros p [].
   - simpl in H.
     assert (Step : forall sl, sl = slot_nil all kws p ->
-              (takes_kw p = true -> mem (p_name p) kws = false -> p_default p <> None) ->
+              (is_star p = false -> (takes_kw p = true -> mem (p_name p) kws = false) -> p_default p <> None) ->
               omap (cons (p_name p, sl)) (bind_go all ps [] kws) = Ok b ->
               b = map (fun p => (p_name p, slot_nil all kws p)) (p :: ps) /\
-              forall q, In q (p :: ps) -> takes_kw q = true -> mem (p_name q) kws = false -> p_default q <> None).
+              forall q, In q (p :: ps) -> is_star q = false -> (takes_kw q = true -> mem (p_name q) kws = false) -> p_default q <> None).
     { intros sl Esl Hp E. destruct (bind_go all ps [] kws) as [b'|e] eqn:Eb; [|discriminate]. simpl in E. inversion E; subst.
       destruct (IH _ eq_refl) as [-> Hd]. split; [reflexivity|]. intros q [<-|Hq]; [assumption|now apply Hd]. }
-    unfold by_default in H. unfold slot_nil in Step. unfold takes_kw in Step at 1.
+    unfold by_default in H. unfold slot_nil in Step.
+    assert (Star : p_kind p = VarPos \/ p_kind p = VarKw -> is_star p = false -> (takes_kw p = true -> mem (p_name p) kws = false) -> p_default p <> None).
+    { intros Hk Hs. unfold is_star, is_varpos, is_varkw in Hs. destruct Hk as [Hk|Hk]; rewrite Hk in Hs; discriminate. }
+    assert (Kw : takes_kw p = true -> mem (p_name p) kws = true -> is_star p = false -> (takes_kw p = true -> mem (p_name p) kws = false) -> p_default p <> None).
+    { intros Ht Hm _ Hk. specialize (Hk Ht). congruence. }
     destruct (p_kind p) eqn:Ek.
-    + destruct (p_default p) eqn:Ed; [|discriminate]. eapply Step; [reflexivity| |exact H]. discriminate.
+    + destruct (p_default p) eqn:Ed; [|discriminate]. eapply Step; [reflexivity| |exact H]. intros _ _. discriminate.
     + destruct (mem (p_name p) kws) eqn:Em.
-      * eapply Step; [reflexivity| |exact H]. discriminate.
-      * destruct (p_default p) eqn:Ed; [|discriminate]. eapply Step; [reflexivity| |exact H]. discriminate.
-    + eapply Step; [reflexivity| |exact H]. discriminate.
+      * eapply Step; [reflexivity| |exact H]. apply Kw; [unfold takes_kw; now rewrite Ek|reflexivity].
+      * destruct (p_default p) eqn:Ed; [|discriminate]. eapply Step; [reflexivity| |exact H]. intros _ _. discriminate.
+    + eapply Step; [reflexivity| |exact H]. apply Star. now left.
     + destruct (mem (p_name p) kws) eqn:Em.
-      * eapply Step; [reflexivity| |exact H]. discriminate.
-      * destruct (p_default p) eqn:Ed; [|discriminate]. eapply Step; [reflexivity| |exact H]. discriminate.
-    + eapply Step; [reflexivity| |exact H]. discriminate.
+      * eapply Step; [reflexivity| |exact H]. apply Kw; [unfold takes_kw; now rewrite Ek|reflexivity].
+      * destruct (p_default p) eqn:Ed; [|discriminate]. eapply Step; [reflexivity| |exact H]. intros _ _. discriminate.
+    + eapply Step; [reflexivity| |exact H]. apply Star. now right.
 Qed.
 
 Lemma find_param_complete : forall ps p, distinct (map p_name ps) = true -> In p ps -> find_param (p_name p) ps = Some p.
@@ -90,7 +94,9 @@ Section C04.
   Record kw_guards (f : fn) (c : call) : Prop := {
     kg_kw : c_args c = [];
     kg_kws : distinct (kw_names c) = true;                      (* keyword arguments form a dict *)
-    kg_sig : sig_ok f = true;
+    kg_sig : sig_base f = true;
+    (* no NAME of a positional-only parameter is used as a keyword (it would land in **kwargs: finding posonly-name-as-keyword) *)
+    kg_posonly : forallb (fun p => negb (match p_kind p with PosOnly => true | _ => false end && mem (p_name p) (kw_names c))) (f_params f) = true;
     kg_walk : params_without_self f = declared f;              (* the receiver is recognised (K2: receiver name, classmethod decorated directly) *)
     kg_recv : recv_shape f c;
     kg_ann : forall p, In p (declared f) -> p_ann p <> None;
@@ -112,10 +118,11 @@ Section C04.
 
     Let Hsig := kg_sig f c g.
 
-    Lemma sig_parts : no_posonly (f_params f) = true /\ one_star (f_params f) = true /\ distinct (map p_name (full_params f)) = true
+    Lemma sig_parts : True /\ one_star (f_params f) = true /\ distinct (map p_name (full_params f)) = true
       /\ forallb (fun p => negb (Nat.eqb (p_name p) self_name)) (declared f) = true.
     Proof.
-      pose proof Hsig as H. unfold sig_ok in H. repeat (apply andb_true_iff in H; destruct H as [H ?]). repeat split; assumption.
+      pose proof Hsig as H. unfold sig_base in H. apply andb_true_iff in H as [H _]. apply andb_true_iff in H as [H H1].
+      apply andb_true_iff in H as [H H2]. repeat split; assumption.
     Qed.
 
     (* the binding of the declared parameters *)
@@ -137,10 +144,11 @@ Section C04.
       - rewrite Hr in Hb. simpl in Hb. exists b. split; [assumption|]. split; [auto|assumption].
     Qed.
 
-    Lemma declared_takes_kw : forall p, In p (declared f) -> is_star p = false -> takes_kw p = true.
+    (* a declared parameter that is given by keyword takes keywords *)
+    Lemma declared_kw_ok : forall p, In p (declared f) -> is_star p = false -> mem (p_name p) (kw_names c) = true -> takes_kw p = true.
     Proof.
-      intros p Hp Hs. destruct sig_parts as [Hnp _]. destruct (declared_incl f p Hsig Hp) as [Hpf _].
-      unfold no_posonly in Hnp. rewrite forallb_forall in Hnp. specialize (Hnp p Hpf).
+      intros p Hp Hs Hm. destruct (declared_incl_base f p Hsig Hp) as [Hpf _].
+      pose proof (kg_posonly f c g) as Hpo. rewrite forallb_forall in Hpo. specialize (Hpo p Hpf). rewrite Hm in Hpo.
       unfold takes_kw. unfold is_star, is_varpos, is_varkw in Hs. destruct (p_kind p); try discriminate; reflexivity.
     Qed.
 
@@ -169,7 +177,7 @@ Section C04.
     Proof.
       intros p v Hp Hs Hk. destruct declared_binding as [b0 [Hb0 [Hincl Hd]]].
       destruct (bind_go_nil _ _ _ _ Hb0) as [-> _].
-      assert (Htk := declared_takes_kw p Hp Hs).
+      assert (Htk := declared_kw_ok p Hp Hs (kw_get_mem _ _ _ Hk)).
       assert (Hin : In (p_name p, BOne (SKw (p_name p))) b).
       { apply Hincl. apply in_map_iff. exists p. split; [|assumption]. f_equal. unfold slot_nil.
         unfold takes_kw in Htk. unfold kw_names. rewrite (kw_get_mem _ _ _ Hk). destruct (p_kind p); try discriminate; reflexivity. }
@@ -185,14 +193,13 @@ Section C04.
     Proof.
       intros p Hp Hs Hk. destruct declared_binding as [b0 [Hb0 [Hincl Hd]]].
       destruct (bind_go_nil _ _ _ _ Hb0) as [-> Hfill].
-      assert (Htk := declared_takes_kw p Hp Hs).
       assert (Hm : mem (p_name p) (kw_names c) = false).
       { destruct (mem (p_name p) (kw_names c)) eqn:E; [|reflexivity].
         destruct (kw_get_mem_some _ _ E) as [v Hv]. congruence. }
-      destruct (p_default p) as [d|] eqn:Ed; [|exfalso; now apply (Hfill p Hp Htk Hm)].
+      destruct (p_default p) as [d|] eqn:Ed; [|exfalso; now apply (Hfill p Hp Hs (fun _ => Hm))].
       assert (Hin : In (p_name p, BOne (SDefault (p_name p))) b).
       { apply Hincl. apply in_map_iff. exists p. split; [|assumption]. f_equal. unfold slot_nil.
-        unfold takes_kw in Htk. rewrite Hm. destruct (p_kind p); try discriminate; reflexivity. }
+        unfold is_star, is_varpos, is_varkw in Hs. rewrite Hm. destruct (p_kind p); try discriminate; reflexivity. }
       destruct (Hsup (p_ann p) d) as [a [Ha Hacc]].
       { eapply supplied_in; [exact Hp|exact Hin|]. cbv beta iota. rewrite Ed. simpl. now left. }
       eauto.
@@ -309,7 +316,7 @@ Section C04.
           assert (Hnil : skipn (a_idx st1) (combine (wargs c) (wsrc c)) = []).
           { unfold wargs, wsrc, arg_srcs. rewrite (kg_kw f c g). simpl. rewrite !app_nil_r.
             destruct (kg_varpos f c g) as [Hr|Hi].
-            - unfold has_varpos. apply existsb_exists. exists q. split; [|assumption]. now destruct (declared_incl f q Hsig Hq).
+            - unfold has_varpos. apply existsb_exists. exists q. split; [|assumption]. now destruct (declared_incl_base f q Hsig Hq).
             - rewrite Hr. simpl combine. apply skipn_nil.
             - unfold st1. simpl a_idx. rewrite Hi. pose proof (kg_one f c g) as Hl.
               destruct (c_recv c) as [|r [|r2 l]]; simpl in *; try reflexivity; lia. }
@@ -352,7 +359,7 @@ Section C04.
   Theorem transparent : forall f c bd b r,
     kw_guards f c -> twin_binding f c = Ok b ->
     (forall oa v, In (oa, v) (supplied_of f c b) -> exists a, oa = Some a /\ accepts_intact a v) ->
-    f_ret f = Some r -> (forall b' cons v, bd b' cons = Ok v -> accepts r v) ->
+    f_ret f = Some r -> (forall b' cons v, bd b' cons = Ok v -> accepts_intact r v) ->
     run pc check consumes f c bd = twin f c bd.
   Proof.
     intros f c bd b r g Hb Hsup Hret Hres. rewrite (run_is_ref pc check consumes good). unfold run_ref.
@@ -364,8 +371,28 @@ Section C04.
     rewrite Ea, Hcons. unfold invoke, twin. rewrite (kg_same f c g).
     unfold twin_binding, full_params in Hb. rewrite Hb.
     destruct (bd b []) as [v|e] eqn:Ebd; [|reflexivity].
-    unfold ret_value. rewrite Hret, (kg_probe f c g inst Ei).
-    specialize (Hres _ _ _ Ebd (a_tv st)). destruct (check r v (a_tv st)) as [[uu|e] tv']; simpl in Hres; [reflexivity|discriminate].
+    unfold ret_value, ret_seen. rewrite Hret, (kg_probe f c g inst Ei).
+    destruct (Hres _ _ _ Ebd) as [Hacc Hint]. specialize (Hacc (a_tv st)).
+    destruct (check r v (a_tv st)) as [[uu|e] tv']; simpl in Hacc; [cbn; rewrite ?Hret, Hint; reflexivity|discriminate].
+  Qed.
+
+  (* generator functions: a conforming keyword call returns a wrapper around the generator the undecorated function would
+     return: same binding, nothing consumed, nothing of the body has run; its types are those of the return annotation *)
+  Theorem gen_call_transparent : forall f c b a t,
+    kw_guards f c -> twin_binding f c = Ok b ->
+    (forall oa v, In (oa, v) (supplied_of f c b) -> exists a0, oa = Some a0 /\ accepts_intact a0 v) ->
+    f_ret f = Some a -> gen_types pc a = Ok t ->
+    run_gen pc check consumes f c = (Ok {| g_bind := b; g_cons := []; g_types := Some t |}, []).
+  Proof.
+    intros f c b a t g Hb Hsup Hret Ht. rewrite (run_gen_is_ref pc check consumes good). unfold run_gen_ref.
+    assert (Hinst : exists inst, instance_of f c = Ok inst).
+    { unfold instance_of. destruct (is_instance_method f) eqn:Ei; [|eauto].
+      pose proof (kg_inst f c g Ei) as Hne. unfold wargs. destruct (c_recv c); [congruence|]. simpl. eauto. }
+    destruct Hinst as [inst Ei]. rewrite Ei, (auk_passes f c g).
+    destruct (args_phase_succeeds f c b g Hb Hsup inst (kg_probe f c g inst Ei)) as [st [Ea Hcons]].
+    rewrite Ea, Hcons. unfold invoke_gen. rewrite (kg_same f c g).
+    unfold twin_binding, full_params in Hb. rewrite Hb.
+    unfold ret_gen. simpl. rewrite Hret, (kg_probe f c g inst Ei), Ht. reflexivity.
   Qed.
 
   (* ---------------- the guards over the ground truth ---------------- *)
@@ -404,6 +431,10 @@ Section C04.
     assert (Hfull : full_params f = f_params f) by (unfold full_params, func_params; now rewrite Hb).
     assert (Hcm : is_class_method f = false) by (unfold is_class_method; now rewrite Hb).
     assert (Hst : is_static_method f = false) by exact (tg_text f c t).
+    destruct (sig_ok_base f Hsig) as [Hbase Hnp].
+    assert (Hpo : forallb (fun p => negb (match p_kind p with PosOnly => true | _ => false end && mem (p_name p) (kw_names c))) (f_params f) = true).
+    { apply forallb_forall. intros p Hp. unfold no_posonly in Hnp. rewrite forallb_forall in Hnp. specialize (Hnp p Hp).
+      destruct (p_kind p); try discriminate; reflexivity. }
     destruct (f_recv f) eqn:Erecv.
     - destruct Hr as [r [rest [x [Hps [Hn [Hk [Hrc [Htw Hm]]]]]]]].
       assert (Hdecl : declared f = rest) by (unfold declared; now rewrite Erecv, Hfull, Hps).
